@@ -7,7 +7,7 @@ the bound; if dropping privileges fails while running as root, the R/W/X/c flags
 Part M  Path._check_mode: ValueError iff the mode string is invalid, for every string of <= 3 (quick) / 4 (thorough)
         characters over the 13 flags + 2 foreign characters.
 Part A  Path(spelling, mode[, cwd]) for every valid flag multiset of <= 4 flags (571 without u/s; the 429 with u/s in
-        the thorough tier) x a fixture of ~70 path kinds (files/directories/fifos with every interesting permission,
+        the thorough tier) x a fixture of 77 path kinds (files/directories/fifos with every interesting permission,
         symlinks, dangling and looping symlinks, missing with/without parent, paths through a file, '~', '.', '..',
         '', trailing slashes, '/dev/null', '-') x 4 variants (relative in cwd A, relative in cwd B, absolute,
         explicit cwd= argument).  Oracle: `mode_ok`, written from the class docstring flag by flag and fed by
@@ -16,7 +16,9 @@ Part A  Path(spelling, mode[, cwd]) for every valid flag multiset of <= 4 flags 
         join(cwd, expanduser(spelling)).
 Part B  the registered path types and path_type(mode) through a real parser: accepted <=> mode_ok, else ArgumentError.
 Part C  config files nested <= 3 deep (4 thorough) in different directories, referencing each other and data files
-        relatively (sub-parser configs, subclass configs, list files), reached through parse_path / --cfg /
+        relatively (sub-parser configs, subclass configs, list files whose content is / is not loadable as YAML - the
+        two take different code paths), in 5 directory layouts (siblings, descending, ascending, same directory,
+        absolute references; thorough: through symlinked directories), reached through parse_path / --cfg /
         default_config_files / get_defaults / environment, from several process working directories.  Every directory
         holds a decoy `data.txt`, so a path resolved against the wrong directory is *accepted* and only the oracle
         (realpath of the location relative to the referencing file) notices.  After succeeding and failing parses
@@ -436,12 +438,14 @@ def build_cfg_tree(C):
             fh.write("data@" + (d or "."))
         with open(os.path.join(C, d, "dd", "inner.txt"), "w") as fh:
             fh.write("inner@" + (d or "."))
+        with open(os.path.join(C, d, "@at.txt"), "w") as fh:  # a name that is not valid YAML: the list file is then not loadable as a config
+            fh.write("at@" + (d or "."))
     os.symlink("b", os.path.join(C, "lnk_b"))
     os.symlink("a/n/m/k", os.path.join(C, "lnk_k"))
 
 
 def chains(thorough):
-    out = [[], ["sub"], ["model"], ["files"], ["sub", "sub"], ["sub", "model"], ["sub", "files"], ["model", "child"]]
+    out = [[], ["sub"], ["model"], ["files"], ["filesat"], ["sub", "sub"], ["sub", "model"], ["sub", "files"], ["sub", "filesat"], ["model", "child"]]
     if thorough:
         out += [["sub", "sub", "files"], ["sub", "sub", "model"], ["sub", "model", "child"], ["model", "child", "child"]]
     return out
@@ -453,7 +457,7 @@ class Plan:
     def __init__(self, C, chain, layout):
         self.C, self.chain, self.layout = C, chain, layout
         dirs = LAYOUTS[layout]
-        kinds = ["parser"] + [{"sub": "parser", "model": "model", "child": "model", "files": "list"}[k] for k in chain]
+        kinds = ["parser"] + [{"sub": "parser", "model": "model", "child": "model", "files": "list", "filesat": "list"}[k] for k in chain]
         self.nodes = []  # dict(kind, dir (as reached, unnormalised), fname, ref spelling from the parent, content lines)
         self.leaves = []  # (dotted key or ('files', idx), spelling, expected realpath, level)
         self.files = {}  # physical path -> text
@@ -475,7 +479,7 @@ class Plan:
                 reached = ref if os.path.isabs(ref) else os.path.join(reached_dir, ref)
                 reached_dir = os.path.dirname(reached)
                 link = chain[i - 1]
-                prefix = prefix + ({"sub": "sub.", "model": "model.init_args.", "child": "child.init_args.", "files": "files"}[link])
+                prefix = prefix + ({"sub": "sub.", "model": "model.init_args.", "child": "child.init_args.", "files": "files", "filesat": "files"}[link])
             dsp = data_spellings[i % len(data_spellings)]
             node = {"kind": kind, "dir": reached_dir, "fname": fname, "ref": None, "data": dsp, "level": i, "link": chain[i] if i < len(chain) else None}
             if kind == "parser":
@@ -484,7 +488,7 @@ class Plan:
                 self.leaves.append((prefix + "weights", dsp, os.path.realpath(os.path.join(reached_dir, dsp)), i))
             else:
                 other = os.path.relpath(os.path.join(C, "z", "data.txt"), os.path.realpath(reached_dir))
-                node["lines"] = [dsp, other]
+                node["lines"] = (["@at.txt"] if chain[i - 1] == "filesat" else []) + [dsp, other]
                 for j, line in enumerate(node["lines"]):
                     self.leaves.append(((prefix, j), line, os.path.realpath(os.path.join(reached_dir, line)), i))
             self.nodes.append(node)
@@ -503,12 +507,12 @@ class Plan:
         if k == "list":
             lines = list(node["lines"])
             if broken in ("missing-data", "bad-type", "bad-yaml", "missing-child"):
-                lines[-1] = "no_such_file.txt"
+                lines[0] = "no_such_file.txt"
             return "\n".join(lines) + "\n"
         if k == "parser":
             out = [f"file: {data}", f"n: {n}"]
             if node["link"]:
-                out.append(f"{node['link']}: {ref}")
+                out.append(f"{node['link'].replace('filesat', 'files')}: {ref}")
         else:
             out = [f"class_path: {Model.__module__}.Model", "init_args:", f"  weights: {data}", f"  n: {n}"]
             if node["link"]:
@@ -540,21 +544,24 @@ def lookup(cfg, key):
     return cfg.get(key)
 
 
+DEPTH = [3]  # nesting depth of the sub-parsers built by run_channel (3 quick: chains of <= 3 files; 4 thorough)
+
+
 def run_channel(channel, main_sp, env_name, exit_on_error=False):
     """-> callable performing the parse (a fresh parser each time)."""
     if channel == "parse_path":
-        return lambda: make_level(4, top=True, exit_on_error=exit_on_error).parse_path(main_sp)
+        return lambda: make_level(DEPTH[0], top=True, exit_on_error=exit_on_error).parse_path(main_sp)
     if channel == "argv_cfg":
-        return lambda: make_level(4, top=True, exit_on_error=exit_on_error).parse_args(["--cfg", main_sp, "--cli_file", "data.txt"])
+        return lambda: make_level(DEPTH[0], top=True, exit_on_error=exit_on_error).parse_args(["--cfg", main_sp, "--cli_file", "data.txt"])
     if channel == "dcf":
-        return lambda: make_level(4, top=True, exit_on_error=exit_on_error, default_config_files=[main_sp]).parse_args(["--cli_file=data.txt"])
+        return lambda: make_level(DEPTH[0], top=True, exit_on_error=exit_on_error, default_config_files=[main_sp]).parse_args(["--cli_file=data.txt"])
     if channel == "get_defaults":
-        return lambda: make_level(4, top=True, exit_on_error=exit_on_error, default_config_files=[main_sp]).get_defaults()
+        return lambda: make_level(DEPTH[0], top=True, exit_on_error=exit_on_error, default_config_files=[main_sp]).get_defaults()
     if channel == "env":
         def go():
             os.environ[env_name + "_CFG"] = main_sp
             try:
-                return make_level(4, top=True, exit_on_error=exit_on_error, default_env=True, env_prefix=env_name).parse_args([])
+                return make_level(DEPTH[0], top=True, exit_on_error=exit_on_error, default_env=True, env_prefix=env_name).parse_args([])
             finally:
                 del os.environ[env_name + "_CFG"]
         return go
@@ -573,6 +580,7 @@ def cwd_probe(rec, key, cwd_before, C, case):
 
 def part_configs(rec, C, thorough, only_chains=None, only_layouts=None):
     build_cfg_tree(C)
+    DEPTH[0] = 4 if thorough else 3
     layouts = only_layouts or ["sibling", "descend", "ascend", "same", "abs"] + (["symlink"] if thorough else [])
     channels = ["parse_path", "argv_cfg", "dcf", "get_defaults", "env"]
     fails = ["missing-data", "bad-type", "bad-yaml", "missing-child"]
@@ -580,7 +588,7 @@ def part_configs(rec, C, thorough, only_chains=None, only_layouts=None):
     for chain in only_chains or chains(thorough):
         cname = ">".join(["main"] + chain)
         for layout in layouts:
-            if layout == "symlink" and chain and chain[-1] == "files":
+            if layout == "symlink" and chain and chain[-1] in ("files", "filesat"):
                 continue
             plan = Plan(C, chain, layout)
             plan.write()
@@ -594,7 +602,8 @@ def part_configs(rec, C, thorough, only_chains=None, only_layouts=None):
                     if not thorough and sp_name == "abs" and cwd_name != "w":
                         continue
                     for channel in channels:
-                        key = f"c19:cfg:{cname}:{layout}:cwd={cwd_name}:{sp_name}:{channel}"
+                        sig = f"c19:cfg:{cname}:{layout}:cwd={cwd_name}:{sp_name}:{channel}"
+                        key = f"c19:cfg:{cname}:{channel}"  # canonical: the layout / cwd / spelling of the first witness is in the case
                         case = {"chain": cname, "layout": layout, "cwd": cwd.replace(C, "<C>"), "main": main_sp.replace(C, "<C>"), "channel": channel,
                                 "files": {plan.path_of(n).replace(C, "<C>"): plan.text(n) .replace(C, "<C>") for n in plan.nodes},
                                 "tree": "every directory holds data.txt and dd/inner.txt; see build_cfg_tree()/make_level() in b19_paths.py"}
@@ -615,11 +624,11 @@ def part_configs(rec, C, thorough, only_chains=None, only_layouts=None):
                             ok = isinstance(v, Path) and os.path.realpath(v.absolute) == os.path.realpath(os.path.join(cwd, "data.txt"))
                             rec.check(ok, key + ":cli-arg-after-config", f"--cli_file data.txt given on the command line resolved to {getattr(v, 'absolute', None)}".replace(C, "<C>"), case)
                         cwd_probe(rec, key, cwd, C, case)
-                        rec.nontrivial(key)
+                        rec.nontrivial(sig)
                         if chain and layout == "sibling" and channel == "parse_path":
                             rec.sample({"chain": cname, "leaves": [(str(k), s, w.replace(C, "<C>")) for k, s, w, _ in plan.leaves]})
             # failures injected at each level
-            if layout in ("sibling", "descend") or thorough:
+            if layout == "sibling" or (layout == "descend" and len(chain) == 2) or thorough:
                 cwd = os.path.join(C, "w")
                 os.chdir(cwd)
                 main_sp = os.path.relpath(main_abs, cwd)
@@ -635,7 +644,8 @@ def part_configs(rec, C, thorough, only_chains=None, only_layouts=None):
                             for eoe in (False, True):
                                 if eoe and channel not in ("argv_cfg", "parse_path"):
                                     continue
-                                key = f"c19:cfgfail:{cname}:{layout}:{fail}@L{level}:{channel}:exit={int(eoe)}"
+                                sig = f"c19:cfgfail:{cname}:{layout}:{fail}@L{level}:{channel}:exit={int(eoe)}"
+                                key = f"c19:cfgfail:{cname}:{fail}@L{level}:{channel}"
                                 case = {"chain": cname, "layout": layout, "cwd": "<C>/w", "main": main_sp, "channel": channel, "exit_on_error": eoe, "broken": f"{fail} at level {level}",
                                         "files": {plan.path_of(n).replace(C, "<C>"): plan.text(n, fail if n["level"] == level else None).replace(C, "<C>") for n in plan.nodes}}
                                 res = outcome(run_channel(channel, main_sp, "APPC", exit_on_error=eoe))
@@ -644,7 +654,7 @@ def part_configs(rec, C, thorough, only_chains=None, only_layouts=None):
                                 if res[0] != "ok":
                                     failed += 1
                                 cwd_probe(rec, key, cwd, C, case)
-                                rec.nontrivial(key)
+                                rec.nontrivial(sig)
                         plan.write()
             plan.remove()
     os.chdir(C)
@@ -779,7 +789,7 @@ def main():
                     os.chmod(os.path.join(root, d), 0o700)
                 except OSError:
                     pass
-    bound = (f"all valid flag multisets of <= 4 flags ({'with' if h.thorough else 'without'} u/s) x ~85 path kinds x 4{'+2' if h.thorough else ''} variants x 2 working directories; "
+    bound = (f"all valid flag multisets of <= 4 flags ({'with' if h.thorough else 'without'} u/s) x 77 path kinds x 4{'+2' if h.thorough else ''} variants x 2 working directories; "
              f"_check_mode on every string of <= {4 if h.thorough else 3} characters over 15; config chains of <= {4 if h.thorough else 3} files x {6 if h.thorough else 5} directory layouts x 3 cwds x 5 channels, "
              f"failure injected at each level; run with uid={uid}; R/W/X flags {'exercised' if perms else 'NOT exercised (root)'}")
     sys.exit(h.finish(exhaustive=True, bound=bound))
